@@ -29,7 +29,11 @@ class SchedReader(AudioReader):
     def read(self):
         s = self.vf_sched
         s.yield_point("read-begin")
+        s.progress()
         self.vf_reads_started += 1
+        if getattr(self, "vf_fault_at", None) is not None and self.vf_reads_started == self.vf_fault_at:
+            self.vf_fault_raised = True
+            raise OSError("injected source fault")  # a device error in the middle of the stream
         data = AudioReader.read(self)
         self.vf_blocks.append(data)
         s.yield_point("read-end")
@@ -64,9 +68,24 @@ class RecObserver(W.Worker):
 
     def _process_message(self, message):
         self.vf_sched.yield_point("observer-begin")
+        self.vf_sched.progress()
         _id, region = message
         self.vf_log.append((_id, region.meta.start, region.meta.end, bytes(region)))
         self.vf_sched.yield_point("observer-end")
+
+
+class FaultyObserver(RecObserver):
+    """An observer that dies (raises) while processing its k-th message: the others must not notice."""
+
+    def __init__(self, sched, name, die_at, timeout=0.2):
+        self.vf_die_at = die_at
+        super().__init__(sched, name, timeout)
+
+    def _process_message(self, message):
+        if len(self.vf_log) + 1 >= self.vf_die_at:
+            self.vf_died = True
+            raise RuntimeError("injected observer fault")
+        super()._process_message(message)
 
 
 class Installed:
